@@ -172,6 +172,7 @@ class C01:
                 if rng.chance(0.06):
                     op["cancel_after"] = round(rng.random() * 0.01, 5)   # this caller gives up; the others must not notice
         seq_edit = None
+        seq_break = None
         if kind == "cfs" and rng.chance(0.25):
             # one sequential caller, a small cache, by-name operations: eviction order matters
             ops = []
@@ -185,6 +186,9 @@ class C01:
                 ops.append(op)
             clients = [{"id": 0, "ops": ops}]
             seq_edit = rng.sample(names, rng.randint(1, min(2, len(names))))
+            dirs = sorted({n.split("/")[0] for n in names if "/" in n})
+            if dirs and rng.chance(0.4):
+                seq_break = rng.choice(dirs)     # this folder is replaced by a plain file between the halves
         override = None
         if kind == "fs" and rng.chance(0.5):
             # two search directories; between two phases of the run (nothing in flight) some names gain a
@@ -225,7 +229,7 @@ class C01:
             "segments": 2 if override is None and (seq_edit or rng.chance(0.2)) else 1,
             # sequential runs on a caching file-system loader: between the two halves some sources are
             # edited in place; both APIs replay the same history, so their caches must agree afterwards
-            "edit_between": seq_edit,
+            "edit_between": seq_edit, "break_between": seq_break,
             "sched_seed": rng.randrange(1 << 30),
             "lat": {"max": 0.01, "zero_p": rng.choice([0.1, 0.4]), "stall_p": rng.choice([0.0, 0.03])},
             "profile": rng.chance(0.04),
@@ -239,7 +243,7 @@ class C01:
         for nm, src in sources.items():
             store[("", nm)] = src
             for ns in ("u1", "u2"):
-                store[(ns, nm)] = src  # same text in every namespace: modes must agree, not namespaces differ
+                store[(ns, nm)] = "<%s>%s" % (ns, src)   # every tenant its own variant: both APIs must pick the same one
         if kind == "dict":
             return DictLoader(dict(sources))
         if kind == "cdict":
@@ -563,6 +567,12 @@ class C01:
                             rel = nm if "." in nm.rsplit("/", 1)[-1] or not sc["ext"] else nm + sc["ext"]
                             fs.write("root/" + rel, "EDIT<" + sources[nm] + ">", 7)
                         bump(st, "reach.edited_between_loops")
+                        if sc.get("break_between"):
+                            # ... and a folder of templates is replaced by a plain file of the same name
+                            import shutil
+                            shutil.rmtree(fs.path("root/" + sc["break_between"]), ignore_errors=True)
+                            fs.write("root/" + sc["break_between"], "now a file", 9)
+                            bump(st, "reach.folder_became_file")
                     prev = loop
                     loop = SimLoop(Rng(sc["sched_seed"], ("sched", 1)), step_cap=200000, lat_profile=sc["lat"])
                     loop.seq = prev.seq
@@ -639,8 +649,10 @@ class C01:
             yield {**sc, "override": None}
         if sc.get("segments", 1) > 1 and not sc.get("edit_between"):
             yield {**sc, "segments": 1}
+        if sc.get("break_between"):
+            yield {**sc, "break_between": None}
         if sc.get("edit_between"):
-            yield {**sc, "edit_between": None}
+            yield {**sc, "edit_between": None, "break_between": None}
         used_m = sorted({op["main"] for c in cl for op in c["ops"] + (c.get("ops2") or []) if "main" in op})
         for m in used_m:
             for t in G.shrink_tree(sc["mains"][m]):
